@@ -84,6 +84,7 @@ type PeerCfg struct {
 	OnReady   func(p *RefPeer)                          // after the handshakes
 	StopRead  bool                                      // never read (congestion)
 	NoKeepAlive bool
+	NoMonitor   bool // a peer that misbehaves on purpose does not judge the system's answers
 }
 
 type action struct {
@@ -672,7 +673,9 @@ func (p *RefPeer) SetHave(i int, have bool) {
 
 func (p *RefPeer) receive(m refwire.Message) {
 	p.Recv = append(p.Recv, RecvMsg{Tick: p.W.rc.Tick(), At: p.W.rc.S.Now(), Epoch: p.W.Epoch, Msg: m})
-	p.conform(m)
+	if !p.Cfg.NoMonitor {
+		p.conform(m)
+	}
 	if p.Cfg.OnMessage != nil && p.Cfg.OnMessage(p, m) {
 		return
 	}
@@ -726,7 +729,8 @@ func (p *RefPeer) receive(m refwire.Message) {
 				break
 			}
 		}
-		if !(p.Cfg.Fast && p.SysHS.Fast()) {
+		if p.Cfg.NoMonitor {
+		} else if !(p.Cfg.Fast && p.SysHS.Fast()) {
 			p.Viol("C16", "reject-without-fast", "", "%s: reject (%d, %d, %d) on a connection without the fast extension", p.Cfg.Name, m.Index, m.Begin, m.Length)
 		} else if !found {
 			p.Viol("C16", "reject-unknown", "", "%s: reject (%d, %d, %d) names no pending request of this connection", p.Cfg.Name, m.Index, m.Begin, m.Length)
@@ -918,13 +922,16 @@ func (p *RefPeer) CancelReq(index, begin, length uint32) {
 // onPiece: the system uploads to us.  The content check is the C01/C16
 // content monitor at this exit point.
 func (p *RefPeer) onPiece(m refwire.Piece) {
+	if p.Cfg.NoMonitor {
+		return
+	}
 	// ground truth by linear addressing: (index, begin) names the byte at
 	// index*pieceSize+begin of the torrent
 	var truth []byte
 	if abs := int64(m.Index)*p.Spec.Geo.PieceSize + int64(m.Begin); abs >= 0 && abs+int64(len(m.Data)) <= p.Spec.Geo.Length {
 		truth = p.Spec.Content[abs : abs+int64(len(m.Data))]
 	}
-	if truth == nil || !bytes.Equal(truth, m.Data) {
+	if len(m.Data) > 0 && (truth == nil || !bytes.Equal(truth, m.Data)) {
 		p.Viol("C16", "upload-content", "", "%s: piece message (%d, %d, %d bytes) does not carry the torrent's content at that range", p.Cfg.Name, m.Index, m.Begin, len(m.Data))
 		p.Viol("C01", "upload-content", "", "%s: piece message (%d, %d, %d bytes) does not carry the torrent's content at that range", p.Cfg.Name, m.Index, m.Begin, len(m.Data))
 	}
